@@ -1166,10 +1166,17 @@ class Engine:
         return self._comp(e, fr, 'gen')
 
     def _comp(self, e, fr, kind):
-        if len(e.generators) != 1 or e.generators[0].ifs:
+        if len(e.generators) != 1:
             raise Unsupported('comprehension shape', e)
         g = e.generators[0]
         src = self.eval(g.iter, fr)
+        if isinstance(src, Obj):
+            h = self.builtins.get('__iterate__')       # a container the contract can enumerate concretely
+            r = h(self, src, e) if h is not None else None
+            if r is not None:
+                src = r
+        if g.ifs and not isinstance(src, (VTuple, VList)):
+            raise Unsupported('filtered comprehension over %r' % (src,), e)
         if g.is_async and isinstance(src, (VTuple, VList)):
             raise Unsupported('async comprehension over a plain sequence', e)
         if isinstance(src, VSeq) and kind == 'list' and isinstance(g.target, ast.Name) and \
@@ -1183,6 +1190,8 @@ class Engine:
             for it in src.items:
                 f2 = Frame(fr.func, fr.module, fr, fr.qualname)
                 self.assign(g.target, it, f2)
+                if not all(self.is_true(self.eval(c, f2)) for c in g.ifs):
+                    continue
                 if kind == 'dict':
                     out.append((self.eval(e.key, f2), self.eval(e.value, f2)))
                 else:
@@ -1637,6 +1646,11 @@ class Engine:
             raise Unsupported('loop else', st)
         if kind in ('for', 'asyncfor'):
             src = self.eval(st.iter, fr)
+            if kind == 'for' and isinstance(src, Obj):
+                h = self.builtins.get('__iterate__')
+                r = h(self, src, st) if h is not None else None
+                if r is not None:
+                    src = r
             if kind == 'for' and isinstance(src, (VTuple, VList)):
                 # iteration over a concrete spine: exact unrolling, complete
                 for it in list(src.items):
